@@ -599,8 +599,99 @@ def run(ctx, anchors=None):
         ctx.inst(okat, "R01.8", "refines:at", f.loc(), "at(i) is `i < first false`", "at(i) returns %s, expected i < first-false" % (_sx.show(outs[0].ret) if outs else None))
     ctx.floor("R01.8", nref, 10, "ConditionStack member x case combinations")
 
+    # ---- R01.9 an operation in a non-executed branch leaves the session alone: only the conditional opcodes act there, everything
+    # else is decoded, counted and size-checked. The blocks of the operation step that can run while the executed flag is false are
+    # found on its CFG (at a branch on the flag only the false edge is followed; at the opcode switch only the labels admitted by the
+    # `flag || <opcode predicate>` test, evaluated per opcode); a write to session state in one of them must go to the bookkeeping set.
+    ctx.rule("R01.9", "in the operation step, code that can run while the executed flag is false writes only decoding / counting / conditional-stack state")
+    BOOKKEEPING = {"pc": "the decoder advances", "opcode": "decoded operation", "vchPushValue": "decoded operand", "nOpCount": "operations are counted even when skipped",
+                   "opcode_pos": "position counter", "vfExec": "conditional opcodes act in skipped branches", "serror": "error reporting", "script": "local script of exec (decoding)"}
+    FX9 = common.executed_flag(opstep)
+    cfg9 = opstep.cfg()
+    al9 = astq.aliases(opstep)
+
+    def is_opc9(x):
+        return x.get("k") == "ref" and x.get("n") == "opcode" or (x.get("k") == "mem" and x.get("n") == "opcode")
+    admitted = None
+    for n in opstep.nodes():
+        if n["k"] == "bin" and n.get("op") == "||":
+            l0 = n["lhs"]
+            while l0 is not None and l0.get("k") in ("cast", "paren"):
+                l0 = l0["e"]
+            if l0 is not None and l0.get("k") == "ref" and l0.get("n") == FX9:
+                r0 = n["rhs"]
+                while r0 is not None and r0.get("k") in ("cast", "paren"):
+                    r0 = r0["e"]
+                admitted = common.opcode_predicate_set(prog, opstep, r0, is_opc9)
+    if admitted is None:
+        raise AnalysisBroken("R01.9: the operation step has no `%s || <predicate of the opcode>` test (which opcodes act in a skipped branch is not decidable)" % FX9)
+    admitted_short = {a.split("::")[-1] for a in admitted}
+    fx_conds = set()
+    for (a, s_, c, t) in cfg9.cond_edges():
+        cn = opstep.node_by_id(c)
+        while cn is not None and cn.get("k") in ("cast", "paren"):
+            cn = cn["e"]
+        if cn is not None and cn.get("k") == "ref" and cn.get("n") == FX9:
+            fx_conds.add(c)
+    removed_edges = {(a, s_) for (a, s_, c, t) in cfg9.cond_edges() if c in fx_conds and t}
+    # the opcode switch: label blocks of cases outside the admitted set are not entered while the flag is false
+    for sw in S.find_switches(opstep, lambda n: is_opc9(n["cond"]) or (n["cond"].get("k") == "cast" and is_opc9(n["cond"]["e"]))):
+        ids = {x["id"] for x in walk(sw)}
+        heads = [b for b, blk in cfg9.blocks.items() if blk.get("term") == sw["id"]]
+        for g in S.case_groups(sw):
+            if g.switch is not sw:
+                continue
+            names = {(l[0] or "").split("::")[-1] for l in g.labels if l[1] != "default"}
+            if not names or names & admitted_short:
+                continue
+            for l in g.labels:
+                for b, blk in cfg9.blocks.items():
+                    if blk.get("label") == l[2]["id"]:
+                        for h in heads:
+                            removed_edges.add((h, b))
+    skipped_blocks = cfg9.reachable_from(cfg9.entry, removed_edges=removed_edges)
+    # fall-through from a removed label block into the next one is still cut by `break`; blocks only reachable through removed edges are out
+    n9 = 0
+    bad9 = []
+    for n in opstep.nodes():
+        tgt = None
+        if n["k"] in ("assign", "cassign"):
+            tgt = n["lhs"]
+        elif n["k"] == "un" and n.get("op") in ("++", "--"):
+            tgt = n["e"]
+        elif n["k"] == "mcall" and n.get("mconst") is False and not astq.is_pure_accessor(n) and n.get("obj") is not None:
+            tgt = n["obj"]
+        elif n["k"] == "opcall" and n.get("op") in ("=", "+=", "-=", "<<") and n.get("args") and n.get("mconst") is False:
+            tgt = n["args"][0]
+        tgts = [tgt] if tgt is not None else []
+        if n["k"] == "call" and n.get("pk"):
+            tgts = [a_ for i_, a_ in enumerate(n.get("args", [])) if a_ is not None and i_ < len(n["pk"]) and n["pk"][i_] in ("r", "p")]
+        for tg in tgts:
+            pos = cfg9.position(n)
+            if pos is None or pos[0] not in skipped_blocks:
+                continue
+            for p_ in astq.paths(tg, al9):
+                root = p_[0]
+                if root[0] != "parm":
+                    continue      # locals of the step
+                fld = [x for x in p_[1:] if x not in ("*", "[]")]
+                name = fld[0] if fld else root[1].split("#")[0]
+                n9 += 1
+                if name not in BOOKKEEPING:
+                    bad9.append((name, opstep.loc(n), astq.estr(n)[:60]))
+    ctx.site(n9)
+    ctx.floor("R01.9", n9, 4, "writes to session state that can run while the executed flag is false")
+    for (name, loc, txt) in bad9[:6]:
+        ctx.fail("R01.9", "skipped-operation-writes:" + name, loc,
+                 "`%s` writes %s and can run while %s is false: an operation inside a branch that is not executed changes the session (Bitcoin skips it entirely)" % (txt, name, FX9))
+    if not bad9:
+        ctx.ok("R01.9", "skipped-operations-write-only-bookkeeping", opstep.loc(), "the %d state writes that can run while %s is false go to %s; the opcodes acting in a skipped branch are %s"
+               % (n9, FX9, ", ".join(sorted(BOOKKEEPING)), ", ".join(sorted(admitted_short))))
+
 
 MUTANTS = [
+    dict(name="codeseparator-acts-in-a-skipped-branch", file="script/interpreter.cpp", find="            if (fExec && 0 <= opcode && opcode <= OP_PUSHDATA4) {", replace="            if (opcode == OP_CODESEPARATOR) execdata.m_codeseparator_pos = opcode_pos;\n            if (fExec && 0 <= opcode && opcode <= OP_PUSHDATA4) {", expect=["R01.9:skipped-operation-writes:execdata"]),
+    dict(name="push-lands-in-a-skipped-branch", file="script/interpreter.cpp", find="            if (fExec && 0 <= opcode && opcode <= OP_PUSHDATA4) {", replace="            if (0 <= opcode && opcode <= OP_PUSHDATA4) {", expect=["R01.9:skipped-operation-writes:stack"]),
     dict(name="altstack-survives-the-script-switch", file="debugger/interpreter.cpp", find="        env.altstack.clear(); // every script starts with an empty alt stack\n        if (", replace="        if (", expect=["R01.5:reinit:altstack"]),
     dict(name="toggle-top-clears-lower-false", file="debugger/see.h", regex=True, find=r"        \} else \{\n            // There is a false value, but not on top\..*?\n        \}\n", replace="        } else {\n            m_first_false_pos = NO_FALSE;\n        }\n", expect=["R01.8:refines:toggle_top"]),
     dict(name="pop-keeps-popped-false", file="debugger/see.h", find="        if (m_first_false_pos == m_stack_size) {", replace="        if (m_first_false_pos == m_stack_size + 1) {", expect=["R01.8:refines:pop_back"]),
